@@ -399,10 +399,17 @@ fn to_source_span(src: &NamedSource<String>, location: &Location) -> Option<Sour
         return None;
     }
 
+    // Locations do not count a leading byte order mark (the parser skips it), the source
+    // handed to miette still has it: offsets are taken relative to the text after the mark.
+    let bom = if src.inner().starts_with('\u{feff}') {
+        '\u{feff}'.len_utf8()
+    } else {
+        0
+    };
     let (byte_off, mut byte_len): (usize, usize) = if let (Some(off), Some(len)) =
         (location.span().byte_offset(), location.span().byte_len())
     {
-        (off as usize, len as usize)
+        (off as usize + bom, len as usize)
     } else {
         // The parser provides character-based offsets/lengths, while miette expects
         // byte offsets into the UTF-8 source. Convert here using the available source.
@@ -436,7 +443,8 @@ fn to_source_span(src: &NamedSource<String>, location: &Location) -> Option<Sour
             char_len = 1;
         }
 
-        char_range_to_byte_range(src.inner(), char_off, char_len)?
+        let (off, len) = char_range_to_byte_range(&src.inner()[bom..], char_off, char_len)?;
+        (off + bom, len)
     };
 
     if byte_len == 0 {
